@@ -227,10 +227,16 @@ def _do_slice(c, P, V, res):
 def _dedrift_call(P, d, route):
     import setigen as stg
     with contextlib.redirect_stdout(io.StringIO()):
-        if route == 'direct':
-            return stg.dedrift(P, d)
-        if route == 'direct_kw':
-            return stg.dedrift(P, drift_rate=d)
+        if route in ('direct', 'direct_kw'):
+            # an explicit rate (zero included) takes precedence over whatever the frame's metadata says: the metadata
+            # carries a DIFFERENT non-zero rate as a decoy while the explicit routes are exercised
+            P.metadata['drift_rate'] = 0.77 * P.df / P.dt if d <= 0 else -0.77 * P.df / P.dt
+            try:
+                if route == 'direct':
+                    return stg.dedrift(P, d)
+                return stg.dedrift(P, drift_rate=d)
+            finally:
+                P.metadata.pop('drift_rate', None)
         P.metadata['drift_rate'] = d
         return stg.dedrift(P)
 
